@@ -399,6 +399,84 @@ const LEGAL: &[(&str, &str)] = &[
     ("f := () -> () { if true { return } }; f()", "()"),
 ];
 
+/// (static type of the scrutinee, value, test type): the body runs iff the value's run-time
+/// type is below T by the reference relation
+fn dispatch_grid(thorough: bool) -> (u64, Vec<Violation>) {
+    use crate::palette::{Values, RECIPES};
+    use crate::ty::{sub, Ty};
+    use simplesl::variable::Typed;
+    let mut values = Values::new();
+    let interp = Interpreter::with_stdlib();
+    let mut out = Vec::new();
+    let mut n = 0u64;
+    let mut tests: Vec<Ty> = crate::palette::position_types();
+    tests.extend([
+        Ty::strukt(&[]),
+        Ty::strukt(&[("a", Ty::Int), ("b", Ty::Str)]),
+        Ty::strukt(&[("a", Ty::Float)]),
+        Ty::strukt(&[("a", Ty::Any)]),
+        Ty::strukt(&[("b", Ty::Str)]),
+        Ty::union([Ty::strukt(&[("a", Ty::Int)]), Ty::Int]),
+        Ty::arr(Ty::Any),
+        Ty::arr(Ty::union([Ty::Int, Ty::Str])),
+        Ty::Tup(vec![Ty::Any, Ty::Any]),
+        Ty::Tup(vec![Ty::Int, Ty::Int, Ty::Int]),
+        Ty::func(vec![Ty::Int], Ty::Any),
+        Ty::func(vec![], Ty::Tup(vec![Ty::Bool, Ty::Any])),
+        Ty::mutc(Ty::union([Ty::Int, Ty::Float])),
+        Ty::Bool,
+    ]);
+    let max_rank = if thorough { 2 } else { 1 };
+    for ri in 0..RECIPES.len() {
+        if RECIPES[ri].rank > max_rank {
+            continue;
+        }
+        let Some(v) = values.make(ri) else { continue };
+        let tag = Ty::from_impl(&v.as_type());
+        // static types under which the value is passed: any, its own type, its own type in a union
+        let statics = vec![Ty::Any, tag.clone(), Ty::union([tag.clone(), Ty::Void])];
+        for s in &statics {
+            for t in &tests {
+                let want = sub(&tag, t);
+                let forms = [
+                    ("if-set", format!("f := (v: {}) -> any {{ if x: {} = v {{ return 1 }} else {{ return 0 }} }}", s.print(), t.print())),
+                    ("match", format!("f := (v: {}) -> any {{ return match v {{ x: {} => 1, => 0, }} }}", s.print(), t.print())),
+                    ("while-set", format!("f := (v: {}) -> any {{ n := mut 0; while x: {} = v {{ n += 1; break }}; return *n }}", s.print(), t.print())),
+                ];
+                for (form, text) in forms {
+                    n += 1;
+                    let f = match guard(|| Code::parse(&interp, &text).map(|c| c.exec())) {
+                        Ok(Ok(Ok(Variable::Function(f)))) => f,
+                        Ok(Err(_)) => continue, // e.g. `? T` style restrictions; acceptance is not the claim here
+                        other => {
+                            out.push(Violation {
+                                sig: format!("C12|dispatch|{form}|program-fails"),
+                                detail: json!({"kind": "program", "stdlib": true, "text": text, "observed": format!("{:?}", other.map(|r| r.map(|x| x.map(|v| canon(&v)))))}),
+                            });
+                            continue;
+                        }
+                    };
+                    let Some(arg) = values.make(ri) else { continue };
+                    let got = match guard(|| f.clone().create_call(vec![arg]).map(|c| c.exec())) {
+                        Ok(Ok(Ok(r))) => canon(&r),
+                        Ok(Ok(Err(e))) => format!("error:{}", core::exec_error_kind(&e)),
+                        Ok(Err(_)) => continue,
+                        Err(Stop::Panic(p)) => format!("PANIC {} @{}", p.short_msg(), p.file()),
+                        Err(Stop::Exhausted) => continue,
+                    };
+                    if got != if want { "1" } else { "0" } {
+                        out.push(Violation {
+                            sig: format!("C12|dispatch|{form}|value-type={}|test={}|expected-match={want}", tag.print().replace('|', "/"), t.print().replace('|', "/")),
+                            detail: json!({"kind": "host_call", "program": text, "args": [RECIPES[ri].src], "expected": if want { "1" } else { "0" }, "observed": got}),
+                        });
+                    }
+                }
+            }
+        }
+    }
+    (n, out)
+}
+
 #[derive(Default)]
 struct Acc {
     programs: u64,
@@ -546,6 +624,10 @@ pub fn run(tier: &str) -> i32 {
         out
     });
     report.violations(place);
+    // run-time type dispatch: if-set / match type arm / while-set select their body exactly when the
+    // run-time type of the value matches T, for every (static type, value, T)
+    let dispatch = core::on_big_stack(|| dispatch_grid(thorough));
+    report.violations(dispatch.1);
     samples.push(|| json!({"program": program(&all[all.len() / 2]), "shape": shape(&all[all.len() / 2])}));
     samples.push(|| json!({"shape": shape(&all[all.len() - 1])}));
     let Acc { programs, runs, rejected, logs, violations } = acc;
@@ -559,6 +641,7 @@ pub fn run(tier: &str) -> i32 {
         "scrutinee_values": scr.len() * 2,
         "max_nesting_depth": max_depth,
         "generated_programs_not_accepted": rejected,
+        "type_dispatch_cases": dispatch.0,
         "illegal_placements": ILLEGAL.len(),
         "legal_placements": LEGAL.len(),
         "distinct_outcomes": logs.len(),
